@@ -85,12 +85,6 @@ theorem writeFile_ok (fs : Fs α) (p : Path α) (c : Bytes) (hp : p ≠ [])
   | nil => exact absurd rfl hp
   | cons a as =>
     simp only [writeFile, hpar]
-    cases h : Fs.get fs (a :: as) with
-    | none => rfl
-    | some x =>
-      cases x with
-      | dir => exact absurd h hnd
-      | file c' => rfl
 
 /-- `create_dir_all(artifact_directory)` -/
 theorem createDirAll_nil (fs : Fs α) :
